@@ -489,6 +489,7 @@ def run(ck, facts, tier):
 
     c05.rule_no_dropped_states(ck, facts)
     c05.rule_branch_accounting(ck, facts)
+    c05.rule_cursor(ck, facts)
     c12.rule_predicate_recursion(ck, facts)
     guards.run(ck, facts, "C03.guarded-index", ["mimium_lang", "state_tree", "mimium_scheduler", "mimium_audiodriver"])
     from ..rules import errdrop, rewrite
